@@ -100,6 +100,22 @@ func slots() []slot {
 	qp("X-He", "header", "strenum", "header")
 	qp("X-Ha", "header", "array", "header")
 	qp("X-Shared", "header", "integer", "shared")
+	// operation-level parameter that overrides a path-level one of the same name and location
+	out = append(out, slot{name: "query:limit(override)", pos: "override", typ: "integer", op: "getThing", simple: true,
+		schema: func(d J) J {
+			for _, p := range jx.GetJ(d, "paths", P, "get")["parameters"].([]any) {
+				if p.(J)["name"] == "limit" {
+					return p.(J)
+				}
+			}
+			return nil
+		},
+		put: func(w *Witness, v any) {
+			if w.Req.Query == nil {
+				w.Req.Query = map[string][]string{}
+			}
+			w.Req.Query["limit"] = []string{text(v)}
+		}})
 	// path string parameter
 	out = append(out, slot{name: "path:name", pos: "path", typ: "string", op: "getName", simple: true,
 		schema: func(d J) J { return findParam(d, "/names/{name}", "get", "path", "name") },
@@ -230,6 +246,8 @@ func kindsFor(typ string) []kindEdit {
 			{"maximum-added", false, func(o, w J, _ bool) (any, bool) { del(o, "maximum"); return above, true }},
 			{"exclusiveMinimum-added", false, func(o, w J, _ bool) (any, bool) { w["exclusiveMinimum"] = true; return lo, true }},
 			{"exclusiveMaximum-added", false, func(o, w J, _ bool) (any, bool) { w["exclusiveMaximum"] = true; return hi, true }},
+			{"maximum+exclusive-added", false, func(o, w J, _ bool) (any, bool) { del(o, "maximum"); w["exclusiveMaximum"] = true; return hi, true }},
+			{"minimum+exclusive-added", false, func(o, w J, _ bool) (any, bool) { del(o, "minimum"); w["exclusiveMinimum"] = true; return lo, true }},
 			{"enum-added", false, func(o, w J, _ bool) (any, bool) {
 				if isInt {
 					w["enum"] = []any{n("10"), n("20"), n("30")}
